@@ -16,7 +16,7 @@ REQUIRED = ['gregory_subtract_exact', 'gregory_split_equal', 'gregory_meets_spec
             'rests_with_top_continuing', 'exhausted_only_when_none_remains', 'rests_with_top_of_strict_prefix', 'topItem_some_iff', 'rests_with_top_rank', 'shared_first_rank_divides_equally',
             'elected_only_by_quota_or_last_standing', 'retained_count_formula', 'eliminates_exactly_lowest',
             'exhausted_pile_never_contender', 'removed_after_election_are_elected']
-NAME_MODES = ['str', 'int0', 'empty0', 'person']
+NAME_MODES = ['str', 'int0', 'empty0', 'person', 'tuple']
 REQUIRED_COUNTERS = ['surplus_transfer', 'exhausted_pile_gt_candidate', 'shared_first_rank', 'zero_first_pref_candidate',
                      'eliminate_step_-2', 'mandatory_quota', 'multi_seat_candidate', 'hare_draw', 'shortcut',
                      'elimination', 'refusal', 'fraction_weights', 'stv_next', 'stv_nth', 'distributor',
